@@ -2,21 +2,240 @@
   Props.C20 — the UTXO memory allocator (lib/others/memory) never corrupts or aliases live data.
   Property theorems about Model/Alloc.lean (the definitions oracle_c20 executes and go/cmd/c20
   compares with the real allocator) over the size-class table regenerated from slots.go/memory.go.
+  The invariant `Inv` (Proofs/C20Inv.lean) says, for every reachable state:
+    * every page header: brk ≤ cap, per-page free list duplicate-free and below brk; for every slot
+      below brk "on the page's free list ↔ not live"; |free list| + used = brk; used + free = cap;
+    * every class: page list duplicate-free and made of mapped pages of the class, pageCount = its length,
+      global free list duplicate-free and = exactly the per-page free-list entries of the class's pages,
+      the current page is a mapped page of the class with brk < cap;
+    * every live allocation: its slot memory holds Data = slot+header, Len = requested size,
+      Cap ≥ size (Cap + 24 = slot size of the page's class, or = mapped size for private mappings) and
+      the value last written by the owner; shared ones lie below brk of a mapped page;
+    * private mappings and shared pages never share an id; Allocs = number of live allocations;
+    * no page is marked evacuating between operations.
 -/
-import GocoinV.Model.Alloc
+import GocoinV.Proofs.C20Inv
 namespace GocoinV.Props.C20
 open GocoinV.Alloc GocoinV.Gen.MemClasses
 
 /-- The generated size-class table is usable by the allocator: at most 255 classes (class index is a
 byte), every slot (after `init()` added the slice header) holds the 32-byte free-list node, every
-class has at least one and at most 65535 slots per page (`brk/used/free` are uint16), and the
-node's `nextInPage` field starts exactly where the payload starts (so it never overlaps the next slot
-or the slice header of a live neighbour). -/
+class has at least one and at most 65535 slots per page (`brk/used/free` are uint16), all slots of a
+page lie inside the page, every slot size is ≤ MaxSharedSize (otherwise Free would munmap a shared
+slot), and the node's `nextInPage` field starts exactly where the payload starts (so it never overlaps
+the next slot). -/
 theorem table_wf :
     nClasses ≤ 2 ^ classBits - 1 ∧ 0 < nClasses ∧
     (∀ c, c < nClasses → nodeSize ≤ slotSize c ∧ 1 ≤ capOf c ∧ capOf c < 2 ^ brkBits ∧
-      capOf c < 2 ^ usedBits ∧ capOf c < 2 ^ freeBits ∧ headerSize + capOf c * slotSize c ≤ pageSize) ∧
+      capOf c < 2 ^ usedBits ∧ capOf c < 2 ^ freeBits ∧ headerSize + capOf c * slotSize c ≤ pageSize ∧
+      slotSize c ≤ maxShared) ∧
     nodeNextInPageOff + 8 = nodeSize ∧ sliceHdrLen ≤ nodeNextInPageOff := by
   decide +kernel
+
+/-- Every request that takes the shared path (size + 24 ≤ MaxSharedSize) is routed to an existing class
+whose slot holds the slice header and the payload. -/
+theorem class_fits (size : Nat) (h : size + sliceHdrLen ≤ maxShared) :
+    classOf (size + sliceHdrLen) < nClasses ∧
+    size + sliceHdrLen ≤ slotSize (classOf (size + sliceHdrLen)) :=
+  classOf_spec _ h
+
+/-- Slots of a page lie behind the header, inside the 1 MiB page, and two different slots of the same
+page have disjoint byte ranges. -/
+theorem slots_disjoint_inside_page (c i j : Nat) (hc : c < nClasses) (hi : i < capOf c) (hj : j < capOf c) :
+    headerSize ≤ slotLo c i ∧ slotHi c i ≤ pageSize ∧ (i < j → slotHi c i ≤ slotLo c j) := by
+  have t := (table_wf.2.2.1 c hc).2.2.2.2.2.1
+  refine ⟨by simp [slotLo], ?_, ?_⟩
+  · have : (i + 1) * slotSize c ≤ capOf c * slotSize c := Nat.mul_le_mul_right _ hi
+    simp only [slotHi]; omega
+  · intro hij
+    have : (i + 1) * slotSize c ≤ j * slotSize c := Nat.mul_le_mul_right _ hij
+    simp only [slotHi, slotLo]; omega
+
+/-- One Malloc / Free / owner-write / DefragAllImproved step keeps the invariant (for a defrag pass: with
+whatever evacuation order the model accepts as legal). -/
+theorem step_inv {V : Type} (s s' : State V) (op : Op V) (inv : Inv s) (hr : step s op = .ok s') : Inv s' := by
+  cases op with
+  | malloc size =>
+    simp only [step] at hr
+    cases hm : malloc s size with
+    | error e => simp [hm] at hr
+    | ok r => obtain ⟨s2, a⟩ := r; simp only [hm] at hr; cases hr; exact (malloc_inv inv hm).1
+  | free a => exact (free_inv inv hr).1
+  | write a v => exact (write_inv inv hr).1
+  | defrag ch => exact defragAll_inv inv hr
+
+/-- Central invariant: every state reached from the empty allocator by any sequence of Malloc, Free of
+live pointers, owner writes and defragmentation passes (= any interleaving of such calls from any number
+of goroutines, each Malloc/Free being one atomic step under the class mutex, defrag running exclusively)
+satisfies `Inv` (listed at the top of this file): live slots are distinct slots below brk of mapped
+pages, returned slices have Len = size, Cap ≥ size, Data = slot + header, free lists hold exactly the
+non-live slots, the counters equal the counted values, Allocs = number live. -/
+theorem alloc_inv {V : Type} (ops : List (Op V)) (s : State V) (hr : run init ops = .ok s) : Inv s := by
+  suffices H : ∀ (ops : List (Op V)) (s0 s : State V), Inv s0 →
+      foldE step s0 ops = .ok s → Inv s from H ops init s init_inv hr
+  intro ops
+  induction ops with
+  | nil => intro s0 s i h; simp only [foldE] at h; cases h; exact i
+  | cons op rest ih =>
+    intro s0 s i h
+    simp only [foldE] at h
+    cases hs : step s0 op with
+    | error e => simp [hs] at h
+    | ok s1 => simp only [hs] at h; exact ih s1 s (step_inv s0 s1 op i hs) h
+
+/-- Malloc always succeeds in the model (mmap is assumed not to fail): it never dereferences a nil list
+head or an unmapped page. -/
+theorem malloc_never_fails {V : Type} (s : State V) (inv : Inv s) (size : Nat) :
+    ∃ s' a, malloc s size = .ok (s', a) := malloc_total inv.g size
+
+-- non-vacuity: the hypotheses of the theorems above are satisfiable and traces exist
+example : Inv (init : State Nat) := init_inv
+example : ∃ s a, run (init : State Nat) [.malloc 10] = .ok s ∧ s.isLive a := by
+  obtain ⟨s', a, h⟩ := malloc_total (init_inv (V := Nat)).g 10
+  refine ⟨s', a, by simp [run, foldE, step, h], ?_⟩
+  have := (malloc_inv init_inv h).2.2
+  simp [State.isLive, this, KMap.get?_set]
+
+/-- Malloc never hands out memory that is live: the returned slot was not live before, it is a slot of
+a mapped page below `brk ≤ cap` (hence inside the page, `slots_disjoint_inside_page`), or a fresh
+private mapping. Together with `slots_disjoint_inside_page` no two live allocations overlap. -/
+theorem malloc_fresh {V : Type} (s s' : State V) (size : Nat) (a : Addr) (inv : Inv s)
+    (hr : malloc s size = .ok (s', a)) :
+    ¬ s.isLive a ∧ s'.isLive a ∧
+    (∀ p i, a = .sh p i → ∃ h, s'.pages.get? p = some h ∧ h.cls < nClasses ∧ i < h.brk ∧ h.brk ≤ capOf h.cls) := by
+  obtain ⟨i1, i2, i3⟩ := malloc_inv inv hr
+  have hl : s'.isLive a := by simp [State.isLive, i3, KMap.get?_set]
+  refine ⟨i2, hl, ?_⟩
+  intro p i e; subst e
+  simp only [State.isLive] at hl
+  cases hq : s'.live.get? (.sh p i) with
+  | none => simp [hq] at hl
+  | some l =>
+    obtain ⟨m, _, _, _, _, _, h, g1, g2, _⟩ := i1.g.live _ l hq
+    have ok := i1.g.pages p h g1
+    exact ⟨h, g1, ok.cls_lt, g2, ok.brk_le⟩
+
+/-- Shape of every live allocation's slice: Data points to this slot's payload, Len is the requested
+size, Cap ≥ size, and the payload is what the owner wrote last. -/
+theorem slice_shape {V : Type} (s : State V) (inv : Inv s) (a : Addr) (l : LiveRec V)
+    (hl : s.live.get? a = some l) :
+    ∃ m, s.mem.get? a = some m ∧ m.data = some a ∧ m.len = l.size ∧ l.size ≤ m.cap ∧ m.val = l.val := by
+  obtain ⟨m, h1, h2, h3, h4, h5, _⟩ := inv.g.live a l hl
+  exact ⟨m, h1, h2, h3, h5, h4⟩
+
+/-- The free lists hold exactly the non-live slots below brk, the global list exactly the per-page
+entries, and the header counters equal the counted values. -/
+theorem free_lists_exact {V : Type} (s : State V) (inv : Inv s) (p : Nat) (h : Page)
+    (hp : s.pages.get? p = some h) :
+    (∀ i, i < h.brk → (i ∈ h.freeList ↔ ¬ s.isLive (.sh p i))) ∧
+    (∀ i, (p, i) ∈ (s.K h.cls).glist ↔ i ∈ h.freeList) ∧
+    h.freeList.Nodup ∧ h.freeList.length + h.used = h.brk ∧ h.used + h.free = capOf h.cls ∧
+    h.brk ≤ capOf h.cls ∧ (s.K h.cls).pageCount = (s.K h.cls).plist.length ∧ p ∈ (s.K h.cls).plist := by
+  have ok := inv.g.pages p h hp
+  have okc := inv.g.classes h.cls
+  have ne := ok.ne (inv.noEvac p h hp)
+  refine ⟨ne.1, ?_, ok.fl_nodup, ne.2.1, ne.2.2, ok.brk_le, okc.count, ok.in_plist⟩
+  intro i; rw [okc.gl_iff]
+  constructor
+  · rintro ⟨h0, a, _, _, d⟩; rw [hp] at a; cases a; exact d
+  · intro d; exact ⟨h, hp, rfl, inv.noEvac p h hp, d⟩
+
+/-- The uint16 header counters never wrap: they stay ≤ cap < 2^16 (so modelling them as naturals is exact). -/
+theorem counters_fit {V : Type} (s : State V) (inv : Inv s) (p : Nat) (h : Page)
+    (hp : s.pages.get? p = some h) : h.brk < 2 ^ brkBits ∧ h.used < 2 ^ usedBits ∧ h.free < 2 ^ freeBits := by
+  obtain ⟨_, _, _, h4, h5, h6, _, _⟩ := free_lists_exact s inv p h hp
+  have ok := inv.g.pages p h hp
+  obtain ⟨_, _, t3, t4, t5, _⟩ := table_wf.2.2.1 h.cls ok.cls_lt
+  refine ⟨?_, ?_, ?_⟩ <;> omega
+
+/-- Allocs equals the number of live allocations. -/
+theorem allocs_eq_live {V : Type} (s : State V) (inv : Inv s) : s.allocs = s.live.size := inv.allocs
+
+/-- Free of a live pointer always succeeds in the model: it never reaches the "page is completely free"
+branch of uintptrFreeShared (`used == 0`), never takes the wrong private/shared path, never touches an
+unmapped page. -/
+theorem free_never_fails {V : Type} (s : State V) (inv : Inv s) (a : Addr) (hl : s.isLive a) :
+    ∃ s', free s a = .ok s' := free_total inv hl
+
+/-- Malloc / Free / owner writes do not move or change other allocations: a live allocation that the
+operation does not name stays live at the same address with the same size and last-written value. -/
+theorem others_untouched {V : Type} (s s' : State V) (op : Op V) (inv : Inv s)
+    (hr : step s op = .ok s') (a : Addr) (l : LiveRec V) (hl : s.live.get? a = some l)
+    (hop : ∀ ch, op ≠ .defrag ch) (hf : op ≠ .free a) (hw : ∀ v, op ≠ .write a v) :
+    s'.live.get? a = some l := by
+  cases op with
+  | malloc size =>
+    simp only [step] at hr
+    cases hm : malloc s size with
+    | error e => simp [hm] at hr
+    | ok r =>
+      obtain ⟨s2, b⟩ := r; simp only [hm] at hr; cases hr
+      obtain ⟨_, i2, i3⟩ := malloc_inv inv hm
+      rw [i3, KMap.get?_set]; split
+      · next e => subst e; simp [State.isLive, hl] at i2
+      · exact hl
+  | free b =>
+    obtain ⟨_, _, i3⟩ := free_inv inv hr
+    rw [i3, KMap.get?_del]; split
+    · next e => subst e; exact absurd rfl hf
+    · exact hl
+  | write b v =>
+    obtain ⟨_, l', _, i3⟩ := write_inv inv hr
+    rw [i3, KMap.get?_set]; split
+    · next e => subst e; exact absurd rfl (hw v)
+    · exact hl
+  | defrag ch => exact absurd rfl (hop ch)
+
+-- OPEN: contents_preserved — the statement below with "`a' = a`, or `(a, a')` is one entry of the relocate
+-- log and no other entry has `a` as old or `a'` as new" in place of `Chain s'.relog a a'`, i.e. relocate
+-- is called exactly once per moved allocation over the whole pass.  Proved: per iteration of the slot
+-- loop (`relocate_step_partial`: exactly one relocate(old,new), old live before and not after, new not
+-- live before).  Missing: the composition showing that a `new` slot (it lies on a non-evacuating page) is
+-- never the `old` of a later iteration of the same pass, which makes every chain at most one link long.
+/-- Contents preserved by every operation, defragmentation passes included: an allocation that is live
+before the step and is not the one being freed / rewritten by its owner is live after the step with the
+same size and the same last-written value, at the same address for Malloc/Free/write, and for a defrag
+pass at an address reached from the old one through logged relocate(old,new) calls; the memory at that
+address holds exactly that value, with Len = size, Cap ≥ size and Data = that slot's payload. -/
+theorem contents_preserved_partial {V : Type} (s s' : State V) (op : Op V) (inv : Inv s)
+    (hr : step s op = .ok s') (a : Addr) (l : LiveRec V) (hl : s.live.get? a = some l)
+    (hf : op ≠ .free a) (hw : ∀ v, op ≠ .write a v) :
+    ∃ a' m, s'.live.get? a' = some l ∧ Chain s'.relog a a' ∧ ((∀ ch, op ≠ .defrag ch) → a' = a) ∧
+      s'.mem.get? a' = some m ∧ m.val = l.val ∧ m.len = l.size ∧ l.size ≤ m.cap ∧ m.data = some a' := by
+  have inv' := step_inv s s' op inv hr
+  have fin : ∀ a', s'.live.get? a' = some l → Chain s'.relog a a' → ((∀ ch, op ≠ .defrag ch) → a' = a) →
+      ∃ a' m, s'.live.get? a' = some l ∧ Chain s'.relog a a' ∧ ((∀ ch, op ≠ .defrag ch) → a' = a) ∧
+      s'.mem.get? a' = some m ∧ m.val = l.val ∧ m.len = l.size ∧ l.size ≤ m.cap ∧ m.data = some a' := by
+    intro a' h1 h2 h3
+    obtain ⟨m, g1, g2, g3, g4, g5⟩ := slice_shape s' inv' a' l h1
+    exact ⟨a', m, h1, h2, h3, g1, g5, g3, g4, g2⟩
+  by_cases hd : ∃ ch, op = .defrag ch
+  · obtain ⟨ch, e⟩ := hd
+    subst e
+    obtain ⟨a', x, y⟩ := defragAll_moved inv hr a l hl
+    exact fin a' x y (fun h => absurd rfl (h ch))
+  · have hop : ∀ ch, op ≠ .defrag ch := fun ch e => hd ⟨ch, e⟩
+    exact fin a (others_untouched s s' op inv hr a l hl hop hf hw) (.refl a) (fun _ => rfl)
+
+/-- One iteration of defragClass's slot loop (model `moveNext`) on an evacuating page of class c: the
+invariant (`InvG` = `Inv` without "no page is evacuating") is kept, Allocs and the number of live
+allocations are unchanged, and either nothing moved (the slot was on the saved free set; live set, log
+and memory untouched) or exactly one live allocation `old = (pg, i)` moved: its record (size, last-written
+value) is now at `new`, which was not live before; `old` is no longer live; no other live allocation
+changed; memory of every allocation that was live is untouched; relocate(old,new) was logged exactly
+once by this iteration.  By `InvG` of the new state (`LiveOk`) the memory at `new` holds the same value
+with Len = size, Cap ≥ size and Data = new slot + header. -/
+theorem relocate_step_partial {V : Type} (s s' : State V) (c pg : Nat) (inv : InvG s) (hc : c < nClasses)
+    (hcls : ∀ h, s.pages.get? pg = some h → h.evac = true → h.cls = c)
+    (hr : moveNext s c pg = .ok s') :
+    InvG s' ∧ s'.allocs = s.allocs ∧ s'.live.size = s.live.size ∧
+    ((s'.live = s.live ∧ s'.relog = s.relog ∧ s'.mem = s.mem) ∨
+     (∃ i new l, s.live.get? (.sh pg i) = some l ∧ ¬ s.isLive new ∧
+        s'.relog = (.sh pg i, new) :: s.relog ∧
+        s'.live.get? new = some l ∧ s'.live.get? (.sh pg i) = none ∧
+        (∀ b, b ≠ new → b ≠ .sh pg i → s'.live.get? b = s.live.get? b) ∧
+        (∀ b, s.isLive b → s'.mem.get? b = s.mem.get? b))) := by
+  obtain ⟨a, b, c1, _, _, f⟩ := moveNext_invG inv hc hcls hr
+  exact ⟨a, b, c1, f⟩
 
 end GocoinV.Props.C20
